@@ -14,6 +14,10 @@ Driver commands for C11 (model name `c11`). Lines (tokens separated by one space
   (`ok:<payload>` | retryable | nsre | connErr | fatal), `d0|d1` (connection failed), the reader
   goroutine (`parked` at Read | `exited` | `blocked` | `busy`) — after the response and after Close —
   and the number of goroutines left inside the region package.
+  The model's verdict (`receiveDecide`) gives the expected per-call results, `d1`/`exited` iff
+  `receive` returns a `ServerError` — unusable call id, server-class exception in the header, or a
+  server-class exception inside an accepted multi response (tag `srvexc-ends-conn`; the calls of
+  the multi then hold the results `returnResults` gave them *and* the connection is down).
 * `raw <kind> <q> <setup> <hex> <obs> <d> <reader> <obs> <d> <reader> <fobs> <fd> <freader> left=<n>`
   — raw bytes, then EOF, then Close: only the monitors apply.
 * `crash|oom|hang <kind> …` — the child process died (panic / runtime out of memory while
@@ -234,7 +238,13 @@ def frameCmd (kind setup id exc cbm hl rl resp tail obs d rd fobs fd frd left : 
           let cb := if tail = "-" then "nocb" else "cb"
           let drop := if live.any (!·) then ",dropped" else ""
           let cf := if v.connFail then ",connfail" else ""
-          s!"OK tags=frame,{kind},{cls},{cb}{drop}{cf}"
+          -- a multi response that mentions a server-class exception (region-level or per-action):
+          -- accepted → the calls have their results and the connection has failed (`finishOk`);
+          -- rejected, or overruled by the header → it changes nothing
+          let mentions := match dec.multi with | some mr => serverErrorIn mr | none => false
+          let sx := if !(mentions && id = "own") then ""
+            else if exc = "n" && v.connFail then ",srvexc-ends-conn" else ",srvexc-not-accepted"
+          s!"OK tags=frame,{kind},{cls},{cb}{drop}{cf}{sx}"
   | _, _, _, _, _, _ => "BAD frame fields"
 
 def rawCmd (kind setup hex o1 d1 r1 o2 d2 r2 fobs fd frd left : String) : String :=
